@@ -101,6 +101,8 @@ function corpus(depth) {
       push(`${nest.name}|template-data-shorthand|${nm}`, [tdef('t', [probe(id(nm))]), ...nest.wrap([tis('t', M.obj([{ short: nm }]))])])
       push(`${nest.name}|for-list-expression|${nm}`, nest.wrap([el('g', [], [probe(id('q'))], { wxFor: { list: E(M.arr([id(nm)])), item: 'q', index: nm === 'index' ? 'qq' : undefined } })]))
       push(`${nest.name}|for-own-attribute|${nm}`, nest.wrap([el('g', [A.plain('val', E(id(nm)))], [], { wxFor: { list: E(id('list2')) } })]))
+      // every attribute family of one element, each family with a valueless attribute in front of the bound one
+      push(`${nest.name}|attribute-families-after-valueless|${nm}`, nest.wrap([el('r', [A.event('bind', 't0'), A.event('bind', 'tap', E(id(nm))), A.event('catch', 't1'), A.event('catch', 'tap2', E(id(nm))), A.dataColon('flag'), A.dataColon('id', E(id(nm))), A.dataHyphen('g'), A.dataHyphen('h', E(id(nm))), A.mark('f'), A.mark('k', E(id(nm))), A.plain('w'), A.plain('val', E(id(nm)))])]))
       push(`${nest.name}|wx-if-condition|${nm}`, nest.wrap([el('g', [], [text('T')], { wxIf: E(M.bin('===', id(nm), M.lit("'D." + nm + "'"))) }), el('h', [], [], { wxElse: true })]))
       push(`${nest.name}|slot-element-own-attribute|${nm}`, nest.wrap([el('c', [], [el('d', [A.plain('val', E(id(nm)))], [], { slotScopes: [[nm === 'v' ? 'v' : 'zz', undefined]] })])]))
     }
